@@ -60,6 +60,9 @@ func fail(c *mc.Ctx, oracle, key, format string, a ...any) {
 	c.Fail(oracle, "C06/"+key, format, a...)
 }
 
+// refPads: padding the reference adds to the last packet of each of its writes.
+var refPads = []int{0, 1, 21, 300, 1427}
+
 // realClientVsRefServer: the real client (public API) talks to the reference server.
 func realClientVsRefServer(c *mc.Ctx, t tuple, seed int64) {
 	br := o4h.NewBridge(seed, fmt.Sprint(t.idIdx, "/", t.seedIdx), t.iat, t.bias)
@@ -100,8 +103,10 @@ func realClientVsRefServer(c *mc.Ctx, t tuple, seed int64) {
 				return
 			}
 			off := 0
-			for _, n := range t.sc.s {
-				if err := rs.Send(o4h.Pattern('S', off, n), 0); err != nil {
+			for i, n := range t.sc.s {
+				// the reference pads the packet that carries the end of each write
+				// (payload and zero padding in one packet is part of the layout)
+				if err := rs.Send(o4h.Pattern('S', off, n), refPads[(i+t.pad)%len(refPads)]); err != nil {
 					srvErr = err
 					return
 				}
@@ -242,8 +247,8 @@ func refClientVsRealServer(c *mc.Ctx, t tuple, seed int64) {
 				return
 			}
 			off := 0
-			for _, n := range t.sc.c {
-				if err := rs.Send(o4h.Pattern('C', off, n), 0); err != nil {
+			for i, n := range t.sc.c {
+				if err := rs.Send(o4h.Pattern('C', off, n), refPads[(i+t.pad)%len(refPads)]); err != nil {
 					cliErr = err
 					return
 				}
